@@ -6,10 +6,13 @@
 (* damage the sequence of data blocks.                                     *)
 (*                                                                         *)
 (* The file is a sequence of n blocks; block k carries the payload k.  An   *)
-(* altered payload is 0.  The offer announces size and hash (what          *)
-(* sendFile(path) produces); the final verification of the receiver        *)
-(* (checkData: size and MD5) is "got = File(n)" -- the hash is an          *)
-(* uninterpreted injective function of the content.                        *)
+(* altered payload is 0.  `ann` is what the offer announces: size and MD5   *)
+(* hash (what sendFile(path) produces), only one of them, or nothing        *)
+(* (sendFile(jid, device, fileInfo) for generated data; a size of 0 means   *)
+(* "unknown" in this code base).  The final verification of the receiver    *)
+(* (checkData) compares what was announced; the hash is an uninterpreted    *)
+(* injective function of the content.  The fault-free clause (CleanSuccess) *)
+(* holds whatever is announced; what a fault does depends on it.            *)
 (*                                                                         *)
 (* One action per handler of the code / move of the environment:           *)
 (*   Offer      QXmppTransferManager::sendFile                              *)
@@ -43,6 +46,7 @@
 EXTENDS Naturals, Sequences, TLC
 
 CONSTANTS W,            \* wrap modulus of the sequence counter
+          Anns,         \* what the offers announce: subset of {"both", "size", "hash", "none"}
           Sizes,        \* set of file sizes in blocks
           MaxFaults,    \* bound on Fault steps per behaviour
           MaxInject,    \* bound on Inject steps per behaviour
@@ -52,6 +56,8 @@ CONSTANTS W,            \* wrap modulus of the sequence counter
           MaxHist
 
 VARIABLES n,                            \* size of the file in blocks
+          ann,                          \* what the offer announces about the file (size and/or MD5 hash)
+          fk,                           \* kind of the last stream fault ("none": no fault yet)
           sState, sErr, sSeq, sOff,     \* sender job: state, error, next seq, blocks sent
           sReq, sNext,                  \* id of the outstanding request, next fresh id
           rState, rErr, rSeq, got,      \* receiver job: state, error, expected seq, payloads written
@@ -60,7 +66,7 @@ VARIABLES n,                            \* size of the file in blocks
           nf, ni,                       \* stream faults / injected foreign blocks so far
           hist
 
-mvars == <<n, sState, sErr, sSeq, sOff, sReq, sNext, rState, rErr, rSeq, got, s2r, r2s, held, nf, ni>>
+mvars == <<n, ann, fk, sState, sErr, sSeq, sOff, sReq, sNext, rState, rErr, rSeq, got, s2r, r2s, held, nf, ni>>
 vars  == <<mvars, hist>>
 
 StreamFaults == {"Lose", "Drop", "Dup", "Flip", "WrongSid", "WrongFrom", "Swap", "EarlyClose"}
@@ -74,7 +80,7 @@ Rep(t, id) == [t |-> t, id |-> id]
 File(k) == [i \in 1..k |-> i]
 
 Init ==
-    /\ n \in Sizes
+    /\ n \in Sizes /\ ann \in Anns /\ fk = "none"
     /\ sState = "Idle" /\ sErr = "NoError" /\ sSeq = 0 /\ sOff = 0 /\ sReq = 0 /\ sNext = 1
     /\ rState = "None" /\ rErr = "NoError" /\ rSeq = 0 /\ got = <<>>
     /\ s2r = <<>> /\ r2s = <<>> /\ held = NoMsg
@@ -93,7 +99,7 @@ Offer ==
     /\ sState' = "Offer" /\ sReq' = sNext /\ sNext' = sNext + 1
     /\ s2r' = Append(s2r, Ctl("offer", sNext))
     /\ Log([a |-> "Offer"])
-    /\ UNCHANGED <<n, sErr, sSeq, sOff, rState, rErr, rSeq, got, r2s, held, nf, ni>>
+    /\ UNCHANGED <<n, ann, fk, sErr, sSeq, sOff, rState, rErr, rSeq, got, r2s, held, nf, ni>>
 
 \* streamInitiationResultReceived / ibbResponseReceived
 SenderOn(a) ==
@@ -128,7 +134,7 @@ SDeliver ==
     /\ r2s' = Tail(r2s)
     /\ SenderOn(Head(r2s))
     /\ Log([a |-> "SDeliver"])
-    /\ UNCHANGED <<n, rState, rErr, rSeq, got, nf, ni>>
+    /\ UNCHANGED <<n, ann, fk, rState, rErr, rSeq, got, nf, ni>>
 
 (* --- receiver ------------------------------------------------------------- *)
 \* the job is found by sender JID and session id (getIncomingJobBySid)
@@ -136,7 +142,14 @@ Matched(m) == m.sid = "ok" /\ m.from = "S"
 \* replies go to the stanza's sender; a third party's replies never reach S
 Reply(q, m, t) == IF m.from = "S" THEN Append(q, Rep(t, m.id)) ELSE q
 
-CheckData == IF got = File(n) THEN "NoError" ELSE "FileCorrupt"
+\* checkData: the size is compared if one was announced (an announced size of 0 means "not
+\* announced" in this code base, so an empty file never announces one), the MD5 hash if one was.
+\* Sizes are in blocks here: an altered block keeps its length.
+AnnSize(a) == a \in {"both", "size"}
+AnnHash(a) == a \in {"both", "hash"}
+CheckData == IF /\ (AnnSize(ann) /\ n > 0) => Len(got) = n
+                /\ AnnHash(ann) => got = File(n)
+             THEN "NoError" ELSE "FileCorrupt"
 
 RDeliver ==
     /\ s2r # <<>>
@@ -168,7 +181,7 @@ RDeliver ==
                       /\ UNCHANGED <<rSeq, got>>
                  ELSE r2s' = Reply(r2s, m, "err") /\ UNCHANGED <<rState, rErr, rSeq, got>>
     /\ Log([a |-> "RDeliver"])
-    /\ UNCHANGED <<n, sState, sErr, sSeq, sOff, sReq, sNext, held, nf, ni>>
+    /\ UNCHANGED <<n, ann, fk, sState, sErr, sSeq, sOff, sReq, sNext, held, nf, ni>>
 
 (* --- network ---------------------------------------------------------------- *)
 Fault(k) ==
@@ -184,9 +197,9 @@ Fault(k) ==
          [] k = "Swap"       -> /\ held.t = "none"
                                 /\ held' = h /\ s2r' = rest /\ r2s' = Append(r2s, Rep("res", h.id))
          [] k = "EarlyClose" -> s2r' = <<Ctl("close", 0)>> \o rest /\ UNCHANGED <<r2s, held>>
-    /\ nf' = nf + 1
+    /\ nf' = nf + 1 /\ fk' = k
     /\ Log([a |-> "Fault", k |-> k])
-    /\ UNCHANGED <<n, sState, sErr, sSeq, sOff, sReq, sNext, rState, rErr, rSeq, got, ni>>
+    /\ UNCHANGED <<n, ann, sState, sErr, sSeq, sOff, sReq, sNext, rState, rErr, rSeq, got, ni>>
 
 \* a block that is not part of the stream: other sender, or other session
 Inject(w, seq) ==
@@ -195,7 +208,7 @@ Inject(w, seq) ==
     /\ s2r' = <<Msg("data", 0, seq, 0, 0, IF w = "sid" THEN "bad" ELSE "ok", IF w = "from" THEN "X" ELSE "S")>> \o s2r
     /\ ni' = ni + 1
     /\ Log([a |-> "Inject", w |-> w])
-    /\ UNCHANGED <<n, sState, sErr, sSeq, sOff, sReq, sNext, rState, rErr, rSeq, got, r2s, held, nf>>
+    /\ UNCHANGED <<n, ann, fk, sState, sErr, sSeq, sOff, sReq, sNext, rState, rErr, rSeq, got, r2s, held, nf>>
 
 (* --- k fault-free rounds as one step ---------------------------------------- *)
 Steady ==
@@ -211,7 +224,7 @@ Burst(k) ==
     /\ sOff' = sOff + k /\ sReq' = sReq + k /\ sNext' = sNext + k
     /\ s2r' = <<Msg("data", sReq + k, (rSeq + k) % W, sOff + k, sOff + k, "ok", "S")>>
     /\ Log([a |-> "Burst", k |-> k])
-    /\ UNCHANGED <<n, sState, sErr, rState, rErr, r2s, held, nf, ni>>
+    /\ UNCHANGED <<n, ann, fk, sState, sErr, rState, rErr, r2s, held, nf, ni>>
 
 Next ==
     \/ Offer \/ RDeliver \/ SDeliver
@@ -231,14 +244,20 @@ FairSpec == Spec /\ WF_vars(RDeliver) /\ WF_vars(SDeliver) /\ WF_vars(Offer)
 \* "every single fault" (C19): two faults can cancel (a duplicate that is then lost),
 \* so detection is claimed for exactly one; safety for any number.
 Success(st, er) == st = "Finished" /\ er = "NoError"
-P_Safe(rs, re, eq)        == Success(rs, re) => eq
-P_FaultDetected(nflt, rs, re) == nflt = 1 => ~Success(rs, re)
+\* What an offer announces decides what the receiver can notice.  With a hash every single fault of
+\* the block sequence is detected; with the size only, everything but an alteration that keeps
+\* the length; with nothing announced a lost or cut-off tail cannot be told from the end of the
+\* data by anyone, so only the fault-free clause is claimed.  (The sequence numbers catch
+\* duplicates and reorderings in the middle of a stream whatever is announced; not claimed.)
+Detectable(k, a) == AnnHash(a) \/ (a = "size" /\ k # "Flip")
+P_Safe(a, rs, re, eq)     == (AnnHash(a) /\ Success(rs, re)) => eq
+P_FaultDetected(a, k, nflt, rs, re) == (nflt = 1 /\ Detectable(k, a)) => ~Success(rs, re)
 P_CleanSuccess(nflt, q, rs, re, ss, se, eq) == (q /\ nflt = 0) => (Success(rs, re) /\ Success(ss, se) /\ eq)
 
 Quiescent == sState # "Idle" /\ s2r = <<>> /\ r2s = <<>>
 
-Safe          == P_Safe(rState, rErr, got = File(n))
-FaultDetected == P_FaultDetected(nf, rState, rErr)
+Safe          == P_Safe(ann, rState, rErr, got = File(n))
+FaultDetected == P_FaultDetected(ann, fk, nf, rState, rErr)
 CleanSuccess  == P_CleanSuccess(nf, Quiescent, rState, rErr, sState, sErr, got = File(n))
 
 \* fault-free states are a function of the progress (pins down Burst's closed form)
@@ -248,7 +267,7 @@ CleanInv ==
         /\ got = File(sOff - 1) /\ rSeq = (sOff - 1) % W /\ sReq = sOff + 2 /\ sNext = sOff + 3
 
 TypeOK ==
-    /\ n \in Nat /\ sOff \in 0..n /\ sSeq \in 0..(W - 1) /\ rSeq \in 0..(W - 1)
+    /\ n \in Nat /\ ann \in {"both", "size", "hash", "none"} /\ fk \in StreamFaults \cup {"none"} /\ sOff \in 0..n /\ sSeq \in 0..(W - 1) /\ rSeq \in 0..(W - 1)
     /\ sState \in {"Idle", "Offer", "Start", "Transfer", "Finished"}
     /\ rState \in {"None", "Start", "Transfer", "Finished"}
     /\ sErr \in {"NoError", "Abort", "Protocol"} /\ rErr \in {"NoError", "Protocol", "FileCorrupt"}
@@ -260,8 +279,8 @@ TypeOK ==
 Termination == <>[]((s2r = <<>> /\ r2s = <<>>) /\ sState # "Idle")
 
 \* re-initialisation used by the trace specification at an execution boundary
-Reinit(k) ==
-    /\ n' = k
+Reinit(k, a) ==
+    /\ n' = k /\ ann' = a /\ fk' = "none"
     /\ sState' = "Idle" /\ sErr' = "NoError" /\ sSeq' = 0 /\ sOff' = 0 /\ sReq' = 0 /\ sNext' = 1
     /\ rState' = "None" /\ rErr' = "NoError" /\ rSeq' = 0 /\ got' = <<>>
     /\ s2r' = <<>> /\ r2s' = <<>> /\ held' = NoMsg
